@@ -16,6 +16,7 @@ import (
 	"log/slog"
 	"math"
 	"math/big"
+	"os"
 	"runtime"
 	"strconv"
 	"strings"
@@ -227,6 +228,9 @@ type recAdj struct{ w *world }
 
 func (a *recAdj) Do(offset time.Duration) {
 	a.w.corrs = append(a.w.corrs, int64(offset))
+	if streamDo {
+		fmt.Printf("do %d\n", int64(offset)) // isolated run (guard.go): survives the process
+	}
 	if time.Since(a.w.roundT0) > time.Duration(a.w.s.timeout) {
 		a.w.doLate = true
 	}
@@ -288,7 +292,16 @@ func runSync(s *spec) (w *world, panicked any) {
 	return w, panicked
 }
 
+// exec answers one op line; under -replay every sync.run is run in a process of its own
+// (guard.go), so that a run that kills its process is answered `died …` instead.
 func exec(t []string) string {
+	if isolateAll && len(t) > 0 && t[0] == "sync.run" {
+		return isolated(strings.Join(t, " "))
+	}
+	return execInProcess(t)
+}
+
+func execInProcess(t []string) string {
 	switch {
 	case t[0] == "sync.run":
 		s := parseSpec(t[1:])
@@ -568,6 +581,12 @@ func checkConsensusRounds(c *lib.Ctx, s *spec, w *world, op string) {
 // do runs one generated spec through the correspondence and the oracle.
 func do(c *lib.Ctx, s *spec) {
 	op := s.op()
+	if ans, handled := guarded(c, op); handled {
+		if ans != "" {
+			c.Emit(op, ans)
+		}
+		return
+	}
 	var w *world
 	var p any
 	res := lib.Try(func() string {
@@ -587,6 +606,9 @@ func do(c *lib.Ctx, s *spec) {
 // timeout = 0): no correspondence line, only the direct oracle.
 func oracleOnly(c *lib.Ctx, s *spec) {
 	op := s.op()
+	if _, handled := guarded(c, op); handled {
+		return
+	}
 	var w *world
 	var p any
 	lib.Try(func() string { w, p = runSync(s); return "" })
@@ -1132,4 +1154,22 @@ func gen(c *lib.Ctx) {
 	}
 }
 
-func main() { lib.Main(exec, gen) }
+func main() {
+	if op := os.Getenv(envOne); op != "" {
+		runOne(op)
+		return
+	}
+	for _, a := range os.Args[1:] {
+		if a == "-replay" || a == "--replay" || strings.HasPrefix(a, "-replay=") || strings.HasPrefix(a, "--replay=") {
+			isolateAll = true
+		}
+	}
+	if !isolateAll {
+		if os.Getenv(envSupervised) == "" {
+			supervise() // guard.go: the generator runs in a child, restarted after a process death
+			return
+		}
+		childSetup()
+	}
+	lib.Main(exec, gen)
+}
